@@ -242,6 +242,22 @@ func c09Run(c *mc.Ctx, b *c09Base, unit []byte, what string) {
 			}
 		}
 	}
+	// (3b) the same rule for a cut inside the three-byte section header: pointer_field 0, every section in front
+	// is accepted, and the unit ends one or two bytes into a section whose table_id is one of the six deliverable
+	// kinds (no section_length can be read: the reference rejects the unit, the outcome is an error)
+	if out.EOF && !framed && unit[0] == 0 {
+		o, front := 1, true
+		for _, s := range secs {
+			front = front && s.Kind != "" && s.Complete && s.CRCOK
+			o += len(s.Bytes)
+		}
+		if rest := unit[o:]; front && (len(rest) == 1 || len(rest) == 2) && ref.TableKind(rest[0]) != "" {
+			c.Ev.Class("reference-outcome-is-an-error", 1)
+			if len(out.Errs) == 0 {
+				c.Rep.Report("rejected-section-passed-over-in-silence:"+b.Name, det(fmt.Sprintf("the unit ends %d byte(s) into a %s section header behind %d accepted section(s): the outcome is an error, NextData returned none (%d data delivered)", len(rest), ref.TableKind(rest[0]), len(secs), len(got))))
+			}
+		}
+	}
 	if all {
 		c.Ev.Class("unit-still-valid", 1)
 	} else {
